@@ -3,6 +3,7 @@ import MptModel.Impl.HeapXX
 import MptModel.Spec.Vec
 import MptModel.Spec.Tokens
 import Driver.Util
+import Driver.Refs
 /-
   Model driver for the areas `array` (C04) and `elem` (C05, `elem = true`): same op lines and output
   format as harness/drv_array.c.  The implementation model (Impl/Heap.lean) and the spec (one
@@ -21,6 +22,7 @@ structure St where
   live : Tokens.Live := Tokens.empty   -- S of C05: live tokens
   illegal : String := ""
   xkind : String := ""                 -- C++ part: kind of the handles of this script (`x handles n kind`)
+  refs : Driver.Refs.RSt := {}         -- third part of C05 (`r` lines): buffers of references
   deriving Inhabited
 
 def traitsByName (elem : Bool) : String → Option (Option Traits)
@@ -33,6 +35,7 @@ def traitsByName (elem : Bool) : String → Option (Option Traits)
   | "m4" => if elem then some (some { id := 6, size := 4, init := true, fini := some 1 }) else none
   | "m8" => if elem then some (some { id := 7, size := 8, init := true, fini := some 2 }) else none
   | "n4" => if elem then some (some { id := 8, size := 4, init := true, fini := some 1 }) else none
+  | "f8" => if elem then some (some { id := 9, size := 8, init := false, fini := some 2 }) else none
   | _ => none
 
 def traitsC : Traits := { id := 5, size := 1, init := false, fini := none }
@@ -40,8 +43,8 @@ def traitsC : Traits := { id := 5, size := 1, init := false, fini := none }
 def traitsName : Option Traits → String
   | none => "-"
   | some t => match t.id with
-    | 1 => "p1" | 2 => "p4" | 3 => "p24" | 4 => "z" | 5 => "c" | 6 => "m4" | 7 => "m8" | 8 => "n4"
-    | 11 => "x1" | 12 => "x12" | 13 => "xe" | _ => "?"
+    | 1 => "p1" | 2 => "p4" | 3 => "p24" | 4 => "z" | 5 => "c" | 6 => "m4" | 7 => "m8" | 8 => "n4" | 9 => "f8"
+    | 11 => "x1" | 12 => "x12" | 13 => "xe" | 14 => "i" | 15 => "d" | _ => "?"
 
 def bufOf (m : State) (h : Nat) : Option Buf := (m.handle h).bind m.buf?
 
@@ -287,6 +290,15 @@ def step (elem : Bool) (st : St) (w : List String) : St × String :=
         | some pos, some (bytes, _) =>
           finish elem st (if elem then insertOpE m h pos bytes else insertOp m h pos bytes) noDetail offRet [okAlt st h (Vec.insert v pos bytes), refAlt st]
         | _, _ => bad
+      | "binsert", [pos, dat] =>
+        if elem then bad
+        else
+          match opnd m h pos, dataArg m h dat with
+          | some pos, some (bytes, _) =>
+            -- a position far behind any buffer can only be refused
+            let alts := if pos > 1000000 then [refAlt st] else [okAlt st h (Vec.insert v pos bytes), refAlt st]
+            finish elem st (binsertOp m h pos bytes) noDetail offRet alts
+          | _, _ => bad
       | "set", [tr, off, dat] =>
         let offv : Option Int :=
           if off.startsWith "-" ∧ off.length > 1 then (nat? (off.drop 1).toString).map fun a => - Int.ofNat a
@@ -333,7 +345,7 @@ def step (elem : Bool) (st : St) (w : List String) : St × String :=
             | none => 1
           let k := roundUp n esz
           let nocopy : Bool := match x with
-            | some x => x.nocopy
+            | some x => x.uncopyable
             | none => false
           let alts := [okAlt st h v] ++ (if k < v.length then [okAlt st h (v.take k)] else [])
             ++ (if !sameType || nocopy then [okAlt st h []] else []) ++ [refAlt st]
@@ -385,7 +397,8 @@ def step (elem : Bool) (st : St) (w : List String) : St × String :=
           else finish elem st (arrayPrintf m h traitsC bytes) noDetail (fun r _ => toString r) [okAlt st h (Vec.append v bytes), refAlt st]
         | none => bad
       | "string", [] =>
-        finish elem st (arrayString m h) noDetail (fun _ _ => "ptr") [okAlt st h v, refAlt st]
+        finish elem st (arrayString m h traitsC) noDetail (fun _ _ => "ptr")
+          [okAlt st h (if v.contains 0 then v else v ++ [0]), refAlt st]
       | "window", [off, len] =>
         match opnd m h off, opnd m h len with
         | some off, some len =>
@@ -525,6 +538,21 @@ def stepX (elem : Bool) (st : St) (w : List String) : St × String :=
             match xData dat with
             | some (bytes, _) => finishX elem st (arrayAppendX m h bytes) offRet "null" [okAlt st h (Vec.append v bytes), refAlt st]
             | none => bad
+          | "setv", [kind, dat] =>
+            -- array::set(const value &): s = string, i = int32, d = double
+            match xData dat with
+            | some (bytes, false) =>
+              let spec : Option (Traits × Bool × Nat) :=
+                if kind = "s" then (if bytes.contains 0 then none else some (traitsC, true, 115))
+                else if kind = "i" ∧ bytes.length = 4 then some ({ id := 14, size := 4, init := false, fini := none }, false, 105)
+                else if kind = "d" ∧ bytes.length = 8 then some ({ id := 15, size := 8, init := false, fini := none }, false, 100)
+                else none
+              match spec with
+              | some (t, nul, code) =>
+                let data := if nul then bytes ++ [0] else bytes
+                finishX elem st (arraySetValue m h t bytes nul) (fun _ _ => toString code) "BadOperation" [okAlt st h data, refAlt st]
+              | none => bad
+            | _ => bad
           | "setslice", [src, off, len] =>
             match handleArg st.nh src, nat? off, nat? len with
             | some h2, some off, some len =>
@@ -611,6 +639,11 @@ def stepX (elem : Bool) (st : St) (w : List String) : St × String :=
 def stepLine (elem : Bool) (st : St) (w : List String) : St × String :=
   match w with
   | "x" :: _ => stepX elem st w
+  | "r" :: _ =>
+    if elem then
+      let (r', out) := Driver.Refs.step st.refs w
+      ({ st with refs := r' }, out)
+    else (st, "bad-op")
   | _ => step elem st w
 
 def main (elem : Bool) : IO Unit := do
